@@ -617,14 +617,129 @@ def r03_4(prog, rep):
                      sorted(missing) or sorted(per_stream - fi)))
 
 
+def r03_6(prog, rep, rid="R03.6", files=("evstrm.c", "evfilt.c", "evical.c", "evrrul.c", "evmrul.c", "echsd.c", "event.h", "range.h")):
+    """Instants are ordered only through the comparators of instant.h: the packed word of an instant does not sort chronologically by
+    itself (the all-day and all-second markers are all-ones fields that the comparators wrap to the front of their day/second).  A raw
+    `<`/`>` between two packed instants anywhere else puts all-day occurrences behind the timed ones of the same day."""
+    n = 0
+    bad = 0
+    for f in prog.all_fns():
+        if not f.cfg or f.file not in files:
+            continue
+        for b, i, x, line in f.cfg.all_elems():
+            for nd in walk(x):
+                if nd.get("k") == "bin" and nd["op"] in ("<", ">", "<=", ">="):
+                    sides = [strip_casts(f.cfg.resolve(nd["l"])), strip_casts(f.cfg.resolve(nd["r"]))]
+                    packed = [s_ for s_ in sides if s_.get("k") == "mem" and s_.get("f") == "u" and "instant" in (s_.get("rec") or "")]
+                    if not packed:
+                        continue
+                    n += 1
+                    if len(packed) == 2:
+                        bad += 1
+                        rep.fail(rid, "%s/raw-compare(%s)" % (f.name, show(nd)[:50]), f.loc(nd.get("line", line)),
+                                 "two packed instants are compared with `%s` directly: the all-day / all-second markers are not wrapped, so an all-day "
+                                 "occurrence sorts behind the timed occurrences of its day (use echs_instant_lt_p / echs_event_lt_p)" % nd["op"])
+    if not bad:
+        rep.ok(rid, "raw-instant-comparisons", "src/evstrm.c", "no `<`/`>` between two packed instants outside instant.h (%d comparisons of a packed "
+               "instant with a constant seen)" % n)
+
+
+def r03_5(prog, rep, rid="R03.5"):
+    """The mux constructors take a NULL-terminated list.  Every argument in front of the terminator must be known to be non-NULL at the
+    call (a NULL there ends the list early: the streams behind it are silently left out, and a NULL first argument yields no stream at all)."""
+    from ..flow import MustFacts
+    n = 0
+    for f in prog.all_fns():
+        if not f.cfg or f.file.endswith(".h"):
+            continue
+        sites = [S for S in call_sites(f, ("echs_evstrm_mux", "echs_evstrm_mux_clon"))]
+        if not sites:
+            continue
+        mf = MustFacts(f.cfg)
+        for S in sites:
+            args = [strip_casts(f.cfg.resolve(a)) for a in S.node["a"]]
+            if not args or int_value(args[-1]) != 0:
+                rep.fail(rid, "%s/%s-terminator" % (f.name, S.node["fn"]), f.loc(S.line), "the argument list of %s() does not end in NULL" % S.node["fn"])
+                continue
+            facts = mf.at(S.b, S.i) or set()
+            for ai, a in enumerate(args[:-1]):
+                n += 1
+                t = lv(a)
+                key = "%s/%s(arg %d: %s)" % (f.name, S.node["fn"], ai + 1, t)
+                if ("ne", t, "0") in facts or ("true", t) in facts:
+                    rep.ok(rid, key, f.loc(S.line), "%s is known to be non-NULL at the call" % t)
+                else:
+                    rep.fail(rid, key, f.loc(S.line),
+                             "%s may be NULL when it is passed in front of the terminator of %s(): the list ends there, the streams behind it "
+                             "(or, for the first argument, all of them) are silently left out of the merge" % (t, S.node["fn"]))
+    if n < 4:
+        rep.broken_("rule=%s expected >=4 list arguments of the mux constructors, found %d" % (rid, n))
+
+
+def r03_3c(prog, rep):
+    """A clone copies as many bytes as it allocates; the handle table of the rule streams maps slot i to element i."""
+    rid = "R03.3"
+    for name, file in (("clone_evmux", "evstrm.c"),):
+        if not prog.has_fn(name, file):
+            raise AnalysisBroken("R03.3: %s not found" % name)
+        f = prog.fn(name, file)
+        cfg = f.cfg
+        allocs = {}
+        for b, i, x, line in cfg.all_elems():
+            for l, kind, n in writes(cfg.resolve(x)):
+                rhs = n.get("init") if kind == "decl" else (n.get("r") if n.get("k") == "bin" and n["op"] == "=" else None)
+                if rhs is None:
+                    continue
+                r = strip_casts(rhs)
+                if r.get("k") == "call" and r.get("fn") in ("malloc", "calloc"):
+                    size = show(strip_casts(r["a"][0])) if r["fn"] == "malloc" else "(%s * %s)" % (show(strip_casts(r["a"][0])), show(strip_casts(r["a"][1])))
+                    allocs[lv(l)] = (r["fn"], size, [strip_casts(a) for a in r["a"]])
+        for S in call_sites(f, "memcpy"):
+            dst = lv(strip_casts(cfg.resolve(S.node["a"][0])))
+            if dst not in allocs:
+                continue
+            key = "%s/copies-what-it-allocates(%s)" % (name, dst)
+            fn_, asize, aargs = allocs[dst]
+            csize = show(strip_casts(cfg.resolve(S.node["a"][2])))
+            asz = show(strip_casts(f.expand(aargs[0]))) if fn_ == "malloc" else None
+            csz = show(strip_casts(f.expand(cfg.resolve(S.node["a"][2]))))
+            if fn_ == "malloc" and asz == csz:
+                rep.ok(rid, key, f.loc(S.line), "the clone is allocated and copied with the same size %s" % csize)
+            else:
+                rep.fail(rid, key, f.loc(S.line),
+                         "the clone %s is allocated as %s(%s) but only %s bytes of the original are copied: the state behind the header (the cached "
+                         "events and the prefill marker) is lost, a cloned stream delivers nothing" % (dst, fn_, asize, csize))
+    f = prog.fn("__make_evrrul", "evical.c")
+    cfg = f.cfg
+    for b, i, x, line in cfg.all_elems():
+        for l, kind, n in writes(cfg.resolve(x)):
+            l_ = strip_casts(l)
+            if kind != "assign" or l_.get("k") != "idx" or n.get("k") != "bin":
+                continue
+            r = strip_casts(n["r"])
+            if r.get("k") == "bin" and r["op"] == "+" and lv(strip_casts(r["l"])) == "this":
+                ia, ib = show(strip_casts(l_["i"])), show(strip_casts(r["r"]))
+                key = "__make_evrrul/handle-table[%s]" % ia
+                if ia == ib:
+                    rep.ok(rid, key, f.loc(n.get("line", line)), "slot %s refers to element %s" % (ia, ib))
+                else:
+                    rep.fail(rid, key, f.loc(n.get("line", line)), "slot %s of the handle table refers to element %s of the shared allocation: "
+                             "the rule streams behind it never enter the merge and one stream is merged twice" % (ia, ib))
+
+
 def run(prog, rep, tier, snap):
     rep.rule("R03.1", "peek purity of every stream class in scope", 5)
-    r03_1(prog, rep)
+    rep.call(r03_1, prog, rep)
     rep.rule("R03.2", "merge step decision table, index pairing, scan coverage, end-of-stream, priming", 9)
-    r03_2(prog, rep)
+    rep.call(r03_2, prog, rep)
     rep.rule("R03.3", "allocation sizes of the mux constructors and of the shared RRULE allocation", 6)
-    r03_3(prog, rep)
-    r03_3b(prog, rep)
+    rep.call(r03_3, prog, rep)
+    rep.call(r03_3b, prog, rep)
+    rep.call(r03_3c, prog, rep)
     rep.rule("R03.4", "all rule streams of one event start from the same proto state", 1)
-    r03_4(prog, rep)
+    rep.call(r03_4, prog, rep)
+    rep.rule("R03.5", "NULL-terminated stream lists: every argument in front of the terminator is non-NULL", 4)
+    rep.call(r03_5, prog, rep)
+    rep.rule("R03.6", "instants are ordered only through the comparators of instant.h", 1)
+    rep.call(r03_6, prog, rep)
 READY = True
